@@ -526,6 +526,8 @@ func c13(r *core.Run) {
 	r.Rule("K1", "key layout: getKey = name ':' key SEP id and getQuery = name ':' prefix fill their buffers exactly for every input length and use the same constants; the reader splits at the last SEP (the same constant) and strips len(name)+1", 5)
 	r.Rule("K2", "nil keys are never indexed: every index Set in the maintenance path is dominated by the key != nil edge", 2)
 	r.Rule("K3", "nil vs empty key: index maintenance skips an index only when the key is truly unchanged (both nil, or both non-nil and equal): bytes.Equal is evaluated only under both-non-nil", 1)
+	r.Rule("K9", "the prefix is matched against the key, not the id: the scan accepts an entry only behind a comparison of the id separator's position with the length of the query prefix (badger's prefix match runs over the whole entry, separator and id included)", 1)
+	c13PrefixInsideKey(r, "K9", rel)
 	r.Rule("K8", "an empty key is a key (shared with C14.N5): nothing in the query store decides from the length of an index key - 'not indexed' is the nil key; a length test makes the empty key of a value with an empty indexed member count as no key", 1)
 	c13KeyPresenceByNil(r, "K8", rel)
 	r.Rule("Q1", "maintenance funnel: updateIndex is called only from the func literal handed to the task queue's Do in the change handler; the change handler is registered on the store by the constructor; Flush calls the queue's Flush", 3)
@@ -3226,5 +3228,70 @@ func c14EventsGetTheStoreQuery(r *core.Run, rule string) {
 	}
 	if n == 0 {
 		r.OKTrivial(rule, "store.queryHandler", "Events<-query-returned-by-the-request-handler", "-", "no function of the query handler both translates the request and asks the change")
+	}
+}
+
+// c13PrefixInsideKey: an index entry is <name>:<key> SEP <id>, and badger's
+// prefix match runs over the whole entry. An entry belongs to the result only
+// if the query prefix ends inside the key part, i.e. not beyond the separator:
+// the id is appended only behind a comparison of the separator's position
+// with a length (the prefix's). Without it a prefix that contains the
+// separator byte matches through the separator into the ids.
+func c13PrefixInsideKey(r *core.Run, rule, rel string) {
+	p := r.P
+	fc := methodNamed(p, rel, "IndexQuery", "FetchCollection")
+	if fc == nil {
+		r.Unres(rule, rel+".IndexQuery.FetchCollection", "missing")
+		return
+	}
+	n := 0
+	for _, f2 := range p.Scope(fc) {
+		var sepPos []ssa.Value
+		for _, c := range core.Calls(f2) {
+			if cal := c.Common().StaticCallee(); cal != nil && (cal.String() == "bytes.LastIndexByte" || cal.String() == "bytes.LastIndex") && c.Value() != nil {
+				sepPos = append(sepPos, c.Value())
+			}
+		}
+		if len(sepPos) == 0 {
+			continue
+		}
+		for _, c := range core.Calls(f2) {
+			call, ok := c.(*ssa.Call)
+			if !ok || core.CalleeName(call) != "builtin:append" || types.TypeString(call.Type(), nil) != "[]string" {
+				continue
+			}
+			n++
+			guarded := false
+			for _, ed := range ctxEdges(p, call, fc, 0) {
+				cnd, _ := ed.Norm()
+				bo, ok := cnd.(*ssa.BinOp)
+				if !ok {
+					continue
+				}
+				switch bo.Op {
+				case token.GTR, token.LSS, token.GEQ, token.LEQ:
+				default:
+					continue
+				}
+				for _, sp := range sepPos {
+					other := ssa.Value(nil)
+					if core.Strip(bo.X) == sp {
+						other = bo.Y
+					} else if core.Strip(bo.Y) == sp {
+						other = bo.X
+					}
+					if other == nil {
+						continue
+					}
+					if _, isConst := other.(*ssa.Const); !isConst {
+						guarded = true
+					}
+				}
+			}
+			r.Check(guarded, rule, core.FuncName(f2), "id-taken-only-when-the-prefix-ends-before-the-separator", p.InstrPos(call), "the separator's position is compared with the prefix length before the entry is accepted", "an index entry is accepted without comparing the position of the id separator with the length of the query prefix: a prefix containing the separator byte matches through it into the ids, and values whose key is only a part of the prefix are returned")
+		}
+	}
+	if n == 0 {
+		r.Bad(rule, core.FuncName(fc), "id-taken-only-when-the-prefix-ends-before-the-separator", p.Pos(fc.Pos()), "no result append next to a separator search found (rule went vacuous)")
 	}
 }
